@@ -24,7 +24,7 @@ OTP = ["nitrogql_printer::operation_type_printer", "nitrogql_printer::ts_types"]
 SHARED = ["nitrogql_printer::utils"]
 # the properties about printed types and runtime documents; for the others (CLI behaviour, loader tasks, ...) a memo inside a printer
 # helper changes *what* is printed, which is not their subject
-SHARED_USERS = {"C01", "C02", "C09", "C10", "C12", "C14"}
+SHARED_USERS = {"C01", "C02", "C09", "C10", "C12"}
 SCOPES = {
     "C01": (OTP, "the Result type printed for one selection set is computed from another's"),
     "C02": (OTP, "the Result type printed for one selection set is computed from another's"),
